@@ -68,3 +68,95 @@ Proof.
   rewrite H by now left. apply IH. intros y st Hy. apply H. now right.
 Qed.
 
+
+(* enumerate(xs, s) *)
+Definition enum {A} (s : nat) (xs : list A) : list (nat * A) := combine (seq s (length xs)) xs.
+
+Lemma for_enum {A S} (d : A) (xs : list A) s (body : nat * A -> S -> S) st :
+  for_ (enum s xs) body st = for_ (seq s (length xs)) (fun j => body (j, nth (j - s) xs d)) st.
+Proof.
+  revert s st. induction xs as [|x r IH]; intros s st; [reflexivity|].
+  unfold enum, for_ in *. cbn [length seq combine fold_left].
+  rewrite Nat.sub_diag. cbn [nth]. rewrite IH.
+  apply (for_ext (seq (Datatypes.S s) (length r))). intros j st' Hj. apply in_seq in Hj.
+  replace (j - s)%nat with (Datatypes.S (j - Datatypes.S s)) by lia. reflexivity.
+Qed.
+
+Lemma for_app {A S} (l1 l2 : list A) (f : A -> S -> S) s : for_ (l1 ++ l2) f s = for_ l2 f (for_ l1 f s).
+Proof. unfold for_. apply fold_left_app. Qed.
+
+Lemma for_flat_map {A B S} (f : B -> S -> S) (g : A -> list B) l s :
+  for_ (flat_map g l) f s = for_ l (fun i st => for_ (g i) f st) s.
+Proof.
+  revert s. induction l as [|a l IH]; intro s; [reflexivity|].
+  cbn [flat_map]. rewrite for_app, IH. reflexivity.
+Qed.
+
+Lemma for_map {A B S} (h : A -> B) l (f : B -> S -> S) s : for_ (map h l) f s = for_ l (fun x => f (h x)) s.
+Proof. revert s. induction l as [|a l IH]; intro s; [reflexivity|]. cbn. apply IH. Qed.
+
+Lemma nth_skipn {A} (l : list A) k n d : nth n (skipn k l) d = nth (k + n) l d.
+Proof. revert l. induction k as [|k IH]; intro l; [reflexivity|]. destruct l; [now destruct n|]. cbn. apply IH. Qed.
+
+Lemma set_nth_set_nth {A} (l : list A) i a b : set_nth (set_nth l i a) i b = set_nth l i b.
+Proof. revert i. induction l as [|x r IH]; intro i; destruct i; cbn; [reflexivity|reflexivity|reflexivity|now rewrite IH]. Qed.
+
+Lemma nth_set_nth_same {A} (l : list A) k v d : (k < length l)%nat -> nth k (set_nth l k v) d = v.
+Proof. revert k. induction l as [|x r IH]; intros k H; [cbn in H; lia|]. destruct k; cbn; [reflexivity|]. apply IH. cbn in H. lia. Qed.
+
+Lemma nth_set_nth_other {A} (l : list A) k j v d : k <> j -> nth j (set_nth l k v) d = nth j l d.
+Proof.
+  revert k j. induction l as [|x r IH]; intros k j H; [now destruct k|].
+  destruct k, j; cbn; try reflexivity; [congruence|]. apply IH. congruence.
+Qed.
+
+(* a loop that accumulates into entry i of a list *)
+Lemma for_accum_entry {B} (dl : list B) (g : B -> nat) (i : nat) : forall (fits : list nat), (i < length fits)%nat ->
+  for_ dl (fun j f => set_nth f i (nth i f 0 + g j)%nat) fits
+  = set_nth fits i (fold_left (fun acc j => (acc + g j)%nat) dl (nth i fits 0%nat)).
+Proof.
+  induction dl as [|j dl IH]; intros fits Hi.
+  - cbn. clear - Hi. revert i Hi. induction fits as [|x r IH]; intros i Hi; [cbn in Hi; lia|].
+    destruct i; cbn; [reflexivity|]. f_equal. apply IH. cbn in Hi. lia.
+  - unfold for_ in *. cbn [fold_left]. rewrite IH by (now rewrite set_nth_length).
+    rewrite nth_set_nth_same by exact Hi. apply set_nth_set_nth.
+Qed.
+
+Lemma set_nth_app_mid {A} (pre post : list A) x v n : length pre = n -> set_nth (pre ++ x :: post) n v = pre ++ v :: post.
+Proof. revert n. induction pre as [|y pre IH]; intros n L; cbn in L; subst n; [reflexivity|]. cbn. f_equal. now apply IH. Qed.
+
+(* for i in range(N): fits[i] = h i fits[i]   on a list of length N *)
+Lemma for_each_entry {A} (d : A) (h : nat -> A -> A) : forall N (f0 : list A), length f0 = N ->
+  for_ (seq 0 N) (fun i f => set_nth f i (h i (nth i f d))) f0 = map (fun i => h i (nth i f0 d)) (seq 0 N).
+Proof.
+  intros N f0 HN.
+  assert (G : forall n, (n <= N)%nat ->
+    for_ (seq 0 n) (fun i f => set_nth f i (h i (nth i f d))) f0
+    = map (fun i => h i (nth i f0 d)) (seq 0 n) ++ skipn n f0).
+  { induction n as [|n IH]; intro Hn; [reflexivity|].
+    rewrite seq_S, for_app, IH by lia. cbn [for_ fold_left plus]. rewrite map_app. cbn [map].
+    set (pre := map (fun i => h i (nth i f0 d)) (seq 0 n)).
+    assert (Lp : length pre = n) by (unfold pre; now rewrite map_length, seq_length).
+    assert (Hs : skipn n f0 = nth n f0 d :: skipn (Datatypes.S n) f0).
+    { clear - HN Hn. revert f0 N HN Hn. induction n as [|n IH]; intros f0 N HN Hn.
+      - destruct f0; [cbn in HN; lia|reflexivity].
+      - destruct f0 as [|x r]; [cbn in HN; lia|]. cbn [skipn nth]. apply (IH r (length r) eq_refl). cbn in HN. lia. }
+    rewrite Hs. rewrite app_nth2 by lia. rewrite Lp, Nat.sub_diag. cbn [nth].
+    rewrite <- app_assoc. cbn [app]. apply set_nth_app_mid. exact Lp. }
+  rewrite G by lia. rewrite skipn_all2 by lia. apply app_nil_r.
+Qed.
+
+Lemma map_nth_seq {A B} (f : A -> B) (l : list A) d : map f l = map (fun i => f (nth i l d)) (seq 0 (length l)).
+Proof.
+  induction l as [|x r IH]; [reflexivity|]. cbn [length seq map nth]. f_equal.
+  rewrite IH at 1. rewrite <- seq_shift, map_map. reflexivity.
+Qed.
+
+(* pointwise equal bodies on the states an invariant allows *)
+Lemma for_ext_inv {A S} (P : S -> Prop) (xs : list A) (f g : A -> S -> S) s :
+  P s -> (forall x st, In x xs -> P st -> f x st = g x st /\ P (g x st)) -> for_ xs f s = for_ xs g s.
+Proof.
+  unfold for_. revert s. induction xs as [|x r IH]; intros s Hs H; cbn; [reflexivity|].
+  destruct (H x s (or_introl eq_refl) Hs) as [E Q]. rewrite E. apply IH; [exact Q|].
+  intros y st Hy. apply H. now right.
+Qed.
